@@ -1071,9 +1071,17 @@ class C01(fw.Prop):
                 d["out_of_model"][o["out_of_model"]] = d["out_of_model"].get(o["out_of_model"], 0) + 1
             br = d["inside_extended_model_by_root"].setdefault(p["root"], [0, 0])     # [inside, generated]
             br[1] += 1
+            # the general stream alone (no `allow` restriction, not near-miss): how much of what the unrestricted generator
+            # produces is inside the extended model
+            gen = c.get("allow") is None and c.get("nearmiss") is None and "seed" in c
+            if gen:
+                bg = d.setdefault("inside_extended_model_general_stream_by_root", {}).setdefault(p["root"], [0, 0])
+                bg[1] += 1
             if o.get("in_model2"):
                 d["inside_extended_model"] += 1
                 br[0] += 1
+                if gen:
+                    bg[0] += 1
             if o.get("out_of_model2"):
                 d["out_of_extended_model"][o["out_of_model2"]] = d["out_of_extended_model"].get(o["out_of_model2"], 0) + 1
             for k, v in progs.kinds_of(p).items():
